@@ -2,8 +2,8 @@
 # creates a scratch worktree of /repo's HEAD at /tmp/mutw_<name> with <patch> applied (for running checks against a seeded change)
 # usage: tools/mut_worktree.sh <patch.diff> <name>     remove with: git -C /repo worktree remove --force /tmp/mutw_<name>
 set -e
-d=/tmp/mutw_$2
+p=$(readlink -f "$1"); d=/tmp/mutw_$2
 git -C /repo worktree remove --force $d 2>/dev/null || true
 git -C /repo worktree add --detach $d HEAD -f >/dev/null 2>&1
-git -C $d apply "$1"
+git -C $d apply "$p"
 echo $d
